@@ -313,14 +313,11 @@ def run(chk: Check) -> None:
                     chk.case(("c12", msp.cfg(), msp.enc(), ad.enc(), path, meth), nontrivial=kind == "R" or (kind != "404" and len(path) > 1),
                              sample={"rules": [r.string() for r in msp.rules], "path": path, "adapter": ad.enc()[:40],
                                      "impl": impl[:60] if kind != "R" else "R " + uncps(impl[2:])[:60]} if kind == "R" else None)
-                    if not _has_builder(ms) or kind not in ("R", "M"):
-                        # the matcher model of C03 covers everything but the builder's own redirects (C12 stage 2)
-                        if not _has_builder(ms):
-                            lines.append(f"match {msp.cfg()} {msp.enc()} {ad.enc()} {cps(meth)} {cps(path)}")
-                            expect.append(impl)
-                            meta.append(("match", msp, path, meth, ad))
+                    lines.append(f"match {msp.cfg()} {msp.enc()} {ad.enc()} {cps(meth)} {cps(path)}")
+                    expect.append(impl)
+                    meta.append(("match", msp, path, meth, ad))
     chk.count("redirects", nred)
-    c03.compare_model(chk, "C03", lines, expect, meta)
+    c03.compare_model(chk, "C12", lines, expect, meta)
 
 
 def main(chk: Check) -> None:
@@ -329,7 +326,7 @@ def main(chk: Check) -> None:
     except px.Unsupported as e:
         chk.broken("translator", "C03/Gen.v", str(e))
     chk.forbidden_scan()
-    if chk.coq_make(["C12/Proofs.vo", "C03/Extract.vo"]):
+    if chk.coq_make(["C12/Proofs.vo", "C12/Extract.vo"]):
         chk.audit_props("C12/Props.v")
     else:
         chk.cov["obligations"] += 1
